@@ -199,7 +199,9 @@ def exec_stats(jobs):
             for ln in f:
                 if ln.startswith('{"e":"x"'):
                     xn += 1
-                elif '"r":"ok"' in ln and (ln.startswith('{"e":"alloc"') or ln.startswith('{"e":"op"')):
+                elif ln.startswith('{"e":"talloc"') or ln.startswith('{"e":"tend"'):
+                    okx.add(xn)
+                elif '"r":"ok"' in ln and (ln.startswith('{"e":"alloc"') or ln.startswith('{"e":"op"') or ln.startswith('{"e":"ret"')):
                     okx.add(xn)
         for i, (h, cmds) in enumerate(job.execs):
             total += 1
